@@ -32,6 +32,8 @@ def truth(v):
         return z3.And(v.z != null, z3.Not(FALSY(v.z)))
     if isinstance(s, OptSort):
         return z3.And(z3.Not(v.comps[0]), truth(V(s.inner, v.comps[1:])))
+    if isinstance(s, UnionSort):
+        return z3.If(v.comps[0], truth(V(RefSort(s.cls), [v.comps[2]])), z3.Length(v.comps[1]) > 0)
     if isinstance(s, SeqSort):
         return v.comps[0] > 0
     if isinstance(s, MapSort):
